@@ -102,11 +102,19 @@ def compare(acc, items, u, c, rcase, labelled):
 
 
 def run_pair(asm, acc, items, rcase, labelled=False):
-    u = progcheck.examine(asm, items, False, seed=repr(rcase), nregs=3)
+    preseed = None
+    if rcase.get('kind') == 'rand' and rcase.get('idx', 0) % 3 == 2:
+        # the caller re-uses a label table from an earlier build: same names, stale values, another order
+        rng = random.Random('c04-pre-%r' % (rcase.get('idx'),))
+        names = [it['name'] for it in items if it['k'] == 'label']
+        rng.shuffle(names)
+        preseed = {'labels': {n: 2 * rng.randrange(0, 4000) for n in names}}
+        acc['ctr']['pairs_with_reused_label_table'] += 1
+    u = progcheck.examine(asm, items, False, seed=repr(rcase), nregs=3, preseed=preseed)
     if not u.ok:
         acc['ctr']['refused_uncompressed'] += 1
         return None
-    c = progcheck.examine(asm, items, True, seed=repr(rcase), nregs=3)
+    c = progcheck.examine(asm, items, True, seed=repr(rcase), nregs=3, preseed=preseed)
     if not c.ok:
         acc['ctr']['refused_only_compressed'] += 1      # C12's finding
         return None
